@@ -72,6 +72,9 @@ type CapPayload struct{ N int }
 
 var (
 	CapA = cty.Capsule("capA", reflect.TypeOf(CapPayload{}))
+	// CapA2 is a distinct capsule type that has the same name, native type and
+	// (absent) operations as CapA: capsule types are equal by identity only.
+	CapA2 = cty.Capsule("capA", reflect.TypeOf(CapPayload{}))
 	CapB = cty.CapsuleWithOps("capB", reflect.TypeOf(CapPayload{}), &cty.CapsuleOps{
 		RawEquals: func(a, b interface{}) bool { return a.(*CapPayload).N == b.(*CapPayload).N },
 		HashKey:   func(v interface{}) string { return strconv.Itoa(v.(*CapPayload).N) },
@@ -129,8 +132,11 @@ func (t T) Cty() cty.Type {
 		}
 		return cty.Object(m)
 	case KCapsule:
-		if t.Cap == "B" {
+		switch t.Cap {
+		case "B":
 			return CapB
+		case "A2":
+			return CapA2
 		}
 		return CapA
 	}
@@ -408,11 +414,16 @@ func FromCty(ty cty.Type) T {
 		}
 		return T{K: KObject, Attrs: as}
 	case ty.IsCapsuleType():
-		if ty.Equals(CapB) {
+		// identity, not Type.Equals: the model must not depend on the
+		// equality under test
+		if ty == CapB {
 			return CapsuleT("B")
 		}
-		if ty.Equals(CapA) {
+		if ty == CapA {
 			return CapsuleT("A")
+		}
+		if ty == CapA2 {
+			return CapsuleT("A2")
 		}
 		return CapsuleT("?" + ty.FriendlyName())
 	}
